@@ -74,6 +74,7 @@ type c14Op struct {
 	CommitFail bool    `json:"commitFail,omitempty"`
 	Drop       bool    `json:"drop,omitempty"`
 	Fail       bool    `json:"fail,omitempty"`
+	FailShelf  *int    `json:"failShelf,omitempty"` // storage fault on THIS subscriber's job shelf inside the write transaction
 	Orders     [][]int `json:"orders,omitempty"`
 	Order      []int   `json:"order,omitempty"`
 	// timing: real sleeping of one retry loop
@@ -135,6 +136,8 @@ type c14Gen struct {
 	parked    []*c14Park
 	nParked   int // total number of park events
 	failCommit, dropAfter bool
+	failShelf    string
+	failShelfHit bool
 	phaseAfter bool
 	orders    [][]int
 	lastType  string
@@ -160,6 +163,15 @@ type c14Tx struct {
 }
 
 func (t *c14Tx) Store() stoabs.KVStore { return t.w }
+
+// a storage fault on one subscriber's job shelf (armed per op): every access through this writer fails
+func (t *c14Tx) GetShelfWriter(shelfName string) stoabs.Writer {
+	if t.w.g.failShelf != "" && shelfName == t.w.g.failShelf {
+		t.w.g.failShelfHit = true
+		return stoabs.NewErrorWriter(errC14Injected)
+	}
+	return t.WriteTx.GetShelfWriter(shelfName)
+}
 
 type c14RTx struct {
 	stoabs.ReadTx
@@ -755,6 +767,10 @@ func (h *c14H) exec(op *c14Op) string {
 		}
 		h.reject = op.Reject
 		g.failCommit, g.dropAfter = op.CommitFail, op.Drop
+		g.failShelf, g.failShelfHit = "", false
+		if op.FailShelf != nil && *op.FailShelf >= 0 && *op.FailShelf < h.nsubs {
+			g.failShelf = "_" + c14Subs[*op.FailShelf].Name + "_jobs"
+		}
 		g.mode = "notify"
 		g.orders = nil
 		before := g.nParked
@@ -763,12 +779,16 @@ func (h *c14H) exec(op *c14Op) string {
 		stopped := h.guarded(func() { err = g.st.Add(ctx, p.tx, payload) })
 		h.reject = false
 		g.failCommit, g.dropAfter = false, false
+		g.failShelf = ""
 		op.Orders = g.orders
 		if stopped {
 			h.crashNow()
 			return h.observe("stop", from)
 		}
 		status := h.errStatus(err)
+		if status == "err:commit" && !op.CommitFail && op.FailShelf != nil {
+			status = "err:shelf"
+		}
 		if err == nil && wasPresent {
 			status = "present"
 		}
@@ -789,16 +809,24 @@ func (h *c14H) exec(op *c14Op) string {
 			return h.observe(h.errStatus(err), from)
 		}
 		g.failCommit, g.dropAfter = op.CommitFail, op.Drop
+		g.failShelf, g.failShelfHit = "", false
+		if op.FailShelf != nil && *op.FailShelf >= 0 && *op.FailShelf < h.nsubs {
+			g.failShelf = "_" + c14Subs[*op.FailShelf].Name + "_jobs"
+		}
 		g.mode = "notify"
 		before := g.nParked
 		stopped := h.guarded(func() { err = g.st.WritePayload(ctx, tx, hash.SHA256Sum(p.payload), p.payload) })
 		g.failCommit, g.dropAfter = false, false
+		g.failShelf = ""
 		op.Orders = g.orders
 		if stopped {
 			h.crashNow()
 			return h.observe("stop", from)
 		}
 		status := h.errStatus(err)
+		if status == "err:commit" && !op.CommitFail && op.FailShelf != nil {
+			status = "err:shelf"
+		}
 		if err == nil && h.nsubs > c14Private {
 			if op.Fail {
 				h.failNextWrite = true
@@ -1152,6 +1180,10 @@ func (r *c14Run) genAdd(added map[int]bool, faults bool) *c14Op {
 		op.Mismatch = op.Payload && r.rng.Intn(100) < 5
 		op.CommitFail = r.rng.Intn(100) < 5
 		op.Drop = r.rng.Intn(100) < 4
+		if !op.CommitFail && !op.Drop && r.rng.Intn(100) < 12 {
+			f := r.rng.Intn(h.nsubs)
+			op.FailShelf = &f
+		}
 	}
 	added[ref] = true
 	return op
@@ -1168,6 +1200,10 @@ func (r *c14Run) genWp(added map[int]bool, faults bool) *c14Op {
 		op.CommitFail = r.rng.Intn(100) < 5
 		op.Drop = r.rng.Intn(100) < 4
 		op.Fail = r.rng.Intn(100) < 5
+		if !op.CommitFail && !op.Drop && r.rng.Intn(100) < 12 {
+			f := r.rng.Intn(h.nsubs)
+			op.FailShelf = &f
+		}
 	}
 	return op
 }
